@@ -109,7 +109,7 @@ def run(ctx):
     # 3. generator
     cases = os.path.join(ctx.tmp, "c04.cases")
     gens = [("vectors <=4 targets", vec_cfg("GenSpec", 4, 12, GEN)),
-            ("route weight, 1 command", cmd_cfg("GenSpec", 3, 1, "MCWUSmall", ctx.pick("MCWCSmall", "MCWCFull"), GEN))]
+            ("route weight, 1 command", cmd_cfg("GenSpec", ctx.pick(2, 3), 1, "MCWUSmall", ctx.pick("MCWCSmall", "MCWCFull"), GEN))]
     # weight > 0 then weight 0 / negative, resets as the last command on the route, ...: every
     # script of <=2 commands is a case (no view), the split must be that of the LAST configuration
     gens.append(("route weight resets, every script of <=2 commands",
